@@ -40,6 +40,7 @@ func runC17(r *an.Run) {
 	noTransientBufferRetained(r, "R9-kept-bytes-are-not-a-window-into-a-reused-buffer")
 	snapshotKnowsTheComments(r, "R10-the-snapshot-knows-the-comments")
 	importsAddedWithoutMerging(r, "R11-adding-an-import-leaves-other-import-blocks-alone")
+	snapshotAdvances(r, "R10-the-snapshot-knows-the-comments")
 }
 
 func c17NoCommentConstructed(r *an.Run) {
